@@ -15,6 +15,15 @@
 //!                                                           -> ok|err used=<t|-> S= I= F=
 //!   C36 e2e (same fields)   Builder (direct-COSE signer or SDK signer with a
 //!        `send_timestamp_request` override) + Reader        -> <state> shown=<t|-> S= I= F=
+//!   C36 ta  hdr=- xt=<tokens|-> xvt=1 now0=<t> (signing fields) now=
+//!        a manifest signed (no header time-stamp) with a short-lived certificate becomes an
+//!        ingredient of a second manifest that carries a `c2pa.time-stamp` assertion (token over the
+//!        raw COSE signature; other message; other wrapping; corrupted; untrusted TSA; unknown
+//!        label); read after the certificate expired  -> store S= I= F= delta S= I= F=
+//!        (`store`: timeStamp.* entries the store pass logs; `delta`: the ingredient's new entries)
+//!
+//! `hdr` may list two entries `<first>&<second>` (unprotected-header order): `get_cose_tst_info`
+//! takes the first `sigTst2`/`sigTst` it meets.
 //!
 //! Oracle (on the implementation, independent of the model): an unbound / CMS-invalid token never
 //! yields a time, `timeStamp.validated` or `timeStamp.trusted`; a rejected token is reported with a
@@ -436,6 +445,7 @@ enum HdrPlan {
     Absent,
     Raw(bool),                                // header-level garbage under sigTst2 (true) / sigTst
     Toks(bool, Vec<(Spec, Cover)>),           // label v2?, tokens
+    Two(Box<HdrPlan>, Box<HdrPlan>),          // two sigTst* entries in this header order
 }
 
 #[derive(Clone, Copy, PartialEq, Debug)]
@@ -495,6 +505,19 @@ fn build_header(env: &Env, plan: &HdrPlan, m: &Msgs, rng: &mut Rng) -> Option<(U
             );
             Some((u, enc, facts, *v2))
         }
+        HdrPlan::Two(a, b) => {
+            // the facts / kind that count are those of the first entry (`find_map`)
+            let (ua, ea, fa, v2a) = build_header(env, a, m, rng)?;
+            let (ub, eb, _, _) = build_header(env, b, m, rng)?;
+            let second = match (ub.tst, ub.tst_raw) {
+                (Some((label, toks)), _) => (label, cose_build::tst_container(&toks)),
+                (None, Some(x)) => x,
+                _ => return None,
+            };
+            u = ua;
+            u.tst_second = Some(second);
+            Some((u, format!("{ea}&{eb}"), fa, v2a))
+        }
     }
 }
 
@@ -507,7 +530,7 @@ struct Expect {
 
 fn expectation(facts: &[TokFacts], v2: bool, hdr: &str) -> Expect {
     let right_id = if v2 { "cS" } else { "cP" };
-    let single = facts.len() == 1 && !hdr.ends_with(":X");
+    let single = facts.len() == 1 && !hdr.split('&').next().unwrap_or("").ends_with(":X");
     let vt = |tt: bool| {
         if single && facts[0].valid(right_id, tt) {
             Some(facts[0].eff)
@@ -642,6 +665,9 @@ fn oracle(run: &mut Run, i: usize, ee: &Cred, now: i64, ex: &Expect, tt: bool, e
         if ex.tokens >= 1 && gt.is_none() && !entries.iter().any(|e| e.0 == 'i' && TS_INFO.contains(&e.1.as_str())) {
             run.fail(i, "ts-failure-unreported", format!("{tag}: token rejected without a timeStamp.* informational code"));
         }
+    } else if ex.tokens >= 1 && gt.is_none() && !entries.iter().any(|e| e.0 == 'i' && TS_INFO.contains(&e.1.as_str())) {
+        // "otherwise a time-stamp failure is reported" — also when a time-stamp assertion supplies the time
+        run.fail(i, "hdr-token-unreported-with-assertion-ts", format!("{tag}: header token rejected (not bound / not valid) without a timeStamp.* informational code while a time-stamp assertion supplies the time"));
     }
     // sentence 2
     let valid_now = ee.not_before <= now && now <= ee.not_after;
@@ -650,6 +676,198 @@ fn oracle(run: &mut Run, i: usize, ee: &Cred, now: i64, ex: &Expect, tt: bool, e
         let justified = t.map(|t| ee.not_before <= t && t <= ee.not_after).unwrap_or(false);
         if !justified {
             run.fail(i, "expired-accepted", format!("{tag}: signing certificate not valid at {now} accepted without a bound, valid time-stamp inside its validity"));
+        }
+    }
+}
+
+/// A token made for one COSE_Sign1 placed into a second one over the *same payload, protected
+/// header and signer* (ECDSA is randomised: the two signatures differ). The statement binds a token
+/// to "the claim signature it accompanies".
+fn transplant_case(run: &mut Run, env: &Env, ee: &Cred, v2: bool, rng: &mut Rng) {
+    let tag = format!("transplant/{}", if v2 { "v2" } else { "v1" });
+    let signer = raw_signer(ee, &env.root_a);
+    let payload = rng.bytes(64);
+    let certs = vec![ee.cert_der(), env.root_a.cert_der()];
+    let prot = cose_build::protected_es256(&certs);
+    let (s1a, _) = cose_build::sign_detached(&certs, &payload, &|tbs| signer.sign(tbs).unwrap_or_default());
+    let (s1b, _) = cose_build::sign_detached(&certs, &payload, &|tbs| signer.sign(tbs).unwrap_or_default());
+    if s1a.signature == s1b.signature {
+        run.notes.push(format!("{tag}: the two signatures coincide; skipped"));
+        return;
+    }
+    let msgs = |s: &coset::CoseSign1| Msgs {
+        v2: cose_build::countersign_message(&cose_build::cbor_bstr(&s.signature), &prot),
+        v1: cose_build::countersign_message(&payload, &prot),
+        raw: s.signature.clone(),
+    };
+    let (ma, mb) = (msgs(&s1a), msgs(&s1b));
+    // the token is made for COSE a …
+    let (covered, id_in_b) = if v2 { (&ma.v2, "ro424242".to_string()) } else { (&ma.v1, "cP".to_string()) };
+    debug_assert!(v2 || ma.v1 == mb.v1);
+    let Some((tok, mut f)) = make_token(&env.pki, &env.spec("good"), covered, &id_in_b, None, rng) else {
+        run.notes.push(format!("{tag}: token generation failed"));
+        return;
+    };
+    f.imprint = id_in_b; // what it covers, named from COSE b's point of view
+    // … and accompanies COSE b
+    let mut u = Unprotected::default();
+    u.tst = Some((if v2 { "sigTst2" } else { "sigTst" }.to_string(), vec![tok]));
+    let Some(cose) = cose_build::finish(s1b, &u, 14000) else { return };
+    let hdr = format!("{}:T:{}", if v2 { 2 } else { 1 }, f.enc());
+    let settings = Context::new().with_settings(env.settings_json(true, true).as_str()).expect("settings").settings().clone();
+    let now = pki::now();
+    let (cose2, payload2, ctp2) = (cose.clone(), payload.clone(), env.ctp());
+    let out = guarded(move || {
+        let mut log = StatusTracker::default();
+        let r = c2pa::verif_hooks::c36::verify_cose(&cose2, &payload2, b"", true, &ctp2, None, &mut log, &settings);
+        let used = r.as_ref().ok().and_then(|ci| ci.date.map(|d| d.timestamp()));
+        (r.is_ok(), used, log_entries(&log))
+    });
+    let used_gt = if v2 { None } else { Some(f.eff) };
+    let req = format!("C36 vc hdr={hdr} ext=- {} trust=1 tt=1 now={now}", signing_fields(ee, true, used_gt));
+    run.count(&format!("vc:{tag}"));
+    match out {
+        Err(p) => {
+            let i = run.case(req, "panic".into());
+            run.fail(i, "panic", p);
+        }
+        Ok((ok, used, entries)) => {
+            let i = run.case(req, format!("{} used={} {}", if ok { "ok" } else { "err" }, used.map(|t| t.to_string()).unwrap_or("-".into()), classes(&entries)));
+            run.nontrivial(format!("vc:{tag}"));
+            if let Some(t) = used {
+                let class = if v2 { "ts-unbound-accepted" } else { "v1-token-survives-resigning" };
+                run.fail(i, class, format!("{tag}: a token made for another signature over the same claim gives the signing time {t}"));
+            }
+        }
+    }
+}
+
+// ---- time-stamp assertions (store pass)
+
+struct TaArt {
+    asset: Vec<u8>,
+    xt: String,
+    facts: Vec<TokFacts>,
+    ee: Cred,
+    now0: i64,
+    tag: String,
+}
+
+/// Sign `src` with `ee` (direct COSE, no header time-stamp); returns the asset and the raw COSE signature.
+fn sign_plain(env: &Arc<Env>, ee: &Cred, src: &[u8]) -> Result<(Vec<u8>, Vec<u8>), String> {
+    let raw: Arc<Mutex<Option<Vec<u8>>>> = Arc::new(Mutex::new(None));
+    let raw2 = raw.clone();
+    let mk: MkUnprot = Arc::new(move |m: &Msgs| {
+        *raw2.lock().unwrap() = Some(m.raw.clone());
+        Some(Unprotected::default())
+    });
+    let ctx = Context::new().with_settings(env.settings_json(true, true).as_str()).map_err(|e| format!("{e:?}"))?.with_signer(DirectSigner {
+        inner: raw_signer(ee, &env.root_a),
+        certs: vec![ee.cert_der(), env.root_a.cert_der()],
+        reserve: 16000,
+        mk,
+    });
+    let mut bld = Builder::from_context(ctx).with_definition(definition("c36-a", "image/jpeg").as_str()).map_err(|e| format!("{e:?}"))?;
+    let mut out = Cursor::new(Vec::new());
+    bld.save_to_stream("image/jpeg", &mut Cursor::new(src.to_vec()), &mut out).map_err(|e| format!("{e:?}"))?;
+    let sig = raw.lock().unwrap().take().ok_or("signature not recorded")?;
+    Ok((out.into_inner(), sig))
+}
+
+/// Manifest B (signed by `ee_b`) with `asset_a` as a component ingredient and a `c2pa.time-stamp`
+/// assertion `{label: token}`.
+fn build_with_ts_assertion(env: &Arc<Env>, ee_b: &Cred, asset_a: &[u8], entry: Option<(&str, &[u8])>) -> Result<Vec<u8>, String> {
+    let mk: MkUnprot = Arc::new(|_m: &Msgs| Some(Unprotected::default()));
+    let ctx = Context::new().with_settings(env.settings_json(true, true).as_str()).map_err(|e| format!("{e:?}"))?.with_signer(DirectSigner {
+        inner: raw_signer(ee_b, &env.root_a),
+        certs: vec![ee_b.cert_der(), env.root_a.cert_der()],
+        reserve: 16000,
+        mk,
+    });
+    let mut bld = Builder::from_context(ctx).with_definition(definition("c36-b", "image/jpeg").as_str()).map_err(|e| format!("{e:?}"))?;
+    bld.add_ingredient_from_stream(serde_json::json!({"title": "a.jpg", "relationship": "componentOf"}).to_string(), "image/jpeg", &mut Cursor::new(asset_a.to_vec()))
+        .map_err(|e| format!("{e:?}"))?;
+    if let Some((label, tok)) = entry {
+        let mut ts = c2pa::assertions::TimeStamp::new();
+        ts.add_timestamp(label, tok);
+        bld.add_assertion(c2pa::assertions::TimeStamp::LABEL, &ts).map_err(|e| format!("{e:?}"))?;
+    }
+    let mut out = Cursor::new(Vec::new());
+    bld.save_to_stream("image/jpeg", &mut Cursor::new(asset_a.to_vec()), &mut out).map_err(|e| format!("{e:?}"))?;
+    Ok(out.into_inner())
+}
+
+fn read_ta(run: &mut Run, env: &Env, a: &TaArt, trust: bool, tt: bool) {
+    let now = pki::now();
+    let (asset, js) = (a.asset.clone(), env.settings_json(trust, tt));
+    let out = guarded(move || {
+        let ctx = Context::new().with_settings(js.as_str()).expect("settings");
+        let r = Reader::from_context(ctx).with_stream("image/jpeg", Cursor::new(asset)).map_err(|e| format!("{e:?}"))?;
+        let state = format!("{:?}", r.validation_state()).to_lowercase();
+        let (mut store, mut delta) = (vec![], vec![]);
+        if let Some(v) = r.validation_results() {
+            if let Some(am) = v.active_manifest() {
+                for (k, l) in [('s', am.success()), ('i', am.informational()), ('f', am.failure())] {
+                    for st in l.iter().filter(|s| s.code().starts_with("timeStamp.")) {
+                        store.push((k, st.code().to_string()));
+                    }
+                }
+            }
+            for d in v.ingredient_deltas().map(|d| d.as_slice()).unwrap_or(&[]) {
+                let sc = d.validation_deltas();
+                for (k, l) in [('s', sc.success()), ('i', sc.informational()), ('f', sc.failure())] {
+                    for st in l.iter().filter(|s| relevant(s.code())) {
+                        delta.push((k, st.code().to_string()));
+                    }
+                }
+            }
+        }
+        Ok::<_, String>((state, store, delta))
+    });
+    // the assertion token is always checked with the trust part for a v2 claim (`rc.version() != 1`)
+    let used_gt = (a.facts.len() == 1 && a.facts[0].valid("rR", true)).then(|| a.facts[0].eff);
+    let req = format!(
+        "C36 ta hdr=- xt={} xvt=1 now0={} {} trust={} tt={} now={now}",
+        a.xt,
+        a.now0,
+        signing_fields(&a.ee, true, used_gt),
+        b(trust),
+        b(tt)
+    );
+    run.count(&format!("ta:{}", a.tag));
+    match out {
+        Err(p) => {
+            let i = run.case(req, "panic".into());
+            run.fail(i, "panic", p);
+        }
+        Ok(Err(e)) => {
+            let i = run.case(req, format!("read-error:{}", e.chars().take_while(|c| c.is_ascii_alphanumeric()).collect::<String>()));
+            run.fail(i, "read-error", e);
+        }
+        Ok(Ok((state, store, delta))) => {
+            let i = run.case(req, format!("store {} delta {}", classes(&store), classes(&delta)));
+            run.nontrivial(format!("ta:{}:{trust}:{tt}", a.tag));
+            let valid_now = a.ee.not_before <= now && now <= a.ee.not_after;
+            let expired_reported = has(&delta, 'f', "signingCredential.expired");
+            // sentence 2: the expired ingredient signature is accepted only with a bound, valid assertion token
+            if !valid_now && !expired_reported {
+                let justified = used_gt.map(|t| a.ee.not_before <= t && t <= a.ee.not_after).unwrap_or(false);
+                if !justified {
+                    run.fail(i, "expired-accepted", format!("{}: certificate not valid at {now} accepted without a bound, valid time-stamp (state {state})", a.tag));
+                }
+            }
+            if !valid_now && expired_reported && state != "invalid" {
+                run.fail(i, "expired-accepted", format!("{}: signingCredential.expired for the ingredient but state {state}", a.tag));
+            }
+            // sentence 1: a rejected assertion token is reported, and never as trusted
+            if a.facts.len() == 1 && used_gt.is_none() {
+                if !store.iter().chain(delta.iter()).any(|e| e.0 == 'i' && TS_INFO.contains(&e.1.as_str())) {
+                    run.fail(i, "assertion-ts-failure-unreported", format!("{}: time-stamp assertion token rejected without a timeStamp.* informational code", a.tag));
+                }
+                if store.iter().chain(delta.iter()).any(|e| e.1 == "timeStamp.trusted") {
+                    run.fail(i, "ts-unbound-accepted", format!("{}: timeStamp.trusted for a rejected assertion token", a.tag));
+                }
+            }
         }
     }
 }
@@ -891,7 +1109,7 @@ pub fn run(run: &mut Run, rng: &mut Rng) {
 
     // --- short-lived signing certificate: sign now (inside validity), validate after expiry
     let t1 = pki::now();
-    let short_life = if thorough { 40 } else { 25 };
+    let short_life = if thorough { 45 } else { 32 };
     let ee_short = pki.issue(&root_a, "signer-short", "v3_sign", t1 - 3600, t1 + short_life);
     let mut short_signed: Vec<Signed> = vec![];
     let good = |e: &Env| vec![(e.spec("good"), Cover::Right)];
@@ -920,6 +1138,83 @@ pub fn run(run: &mut Run, rng: &mut Rng) {
             other => run.notes.push(format!("{tag}: signing failed: {:?}", other.map(|r| r.map(|_| ()).err()))),
         }
     }
+    // --- time-stamp assertions: manifest A (short-lived certificate, no header time-stamp) becomes an
+    // ingredient of manifest B, built while A's certificate is still valid; B carries the assertion
+    let mut ta_arts: Vec<TaArt> = vec![];
+    // its own short-lived certificate, issued now, so that the whole window is available
+    let t2 = pki::now();
+    let ee_ta = pki.issue(&root_a, "signer-short-ta", "v3_sign", t2 - 3600, t2 + short_life);
+    match guarded({
+        let (env, ee, src) = (env.clone(), ee_ta.clone(), src.clone());
+        move || sign_plain(&env, &ee, &src)
+    }) {
+        Ok(Ok((asset_a, sig_a))) => {
+            let label_a = guarded({
+                let (asset, js) = (asset_a.clone(), env.settings_json(true, true));
+                move || {
+                    let ctx = Context::new().with_settings(js.as_str()).expect("settings");
+                    Reader::from_context(ctx).with_stream("image/jpeg", Cursor::new(asset)).ok().and_then(|r| r.active_label().map(|s| s.to_string()))
+                }
+            })
+            .ok()
+            .flatten();
+            if let Some(label_a) = label_a {
+                let certs = vec![ee_ta.cert_der(), env.root_a.cert_der()];
+                let prot = cose_build::protected_es256(&certs);
+                let wrapped = cose_build::countersign_message(&cose_build::cbor_bstr(&sig_a), &prot);
+                let g = env.spec("good");
+                // (tag, spec, covered bytes, id, label the entry is filed under)
+                let variants: Vec<(&str, Option<(Spec, Vec<u8>, String)>, String)> = vec![
+                    ("ta-none", None, label_a.clone()),
+                    ("ta-good", Some((g.clone(), sig_a.clone(), "rR".into())), label_a.clone()),
+                    ("ta-good-sha512-acc0", Some((Spec { md: "sha512", acc: 0, ..g.clone() }, sig_a.clone(), "rR".into())), label_a.clone()),
+                    ("ta-wrongmsg", Some((g.clone(), other_msg(31).0, other_msg(31).1)), label_a.clone()),
+                    ("ta-hdrwrap", Some((g.clone(), wrapped.clone(), "cS".into())), label_a.clone()),
+                    ("ta-flipsig", Some((Spec { mutn: Mutn::FlipSig, ..g.clone() }, sig_a.clone(), "rR".into())), label_a.clone()),
+                    ("ta-flipcontent", Some((Spec { mutn: Mutn::FlipContent, ..g.clone() }, sig_a.clone(), "rR".into())), label_a.clone()),
+                    ("ta-untrusted-tsa", Some((env.spec("untrusted"), sig_a.clone(), "rR".into())), label_a.clone()),
+                    ("ta-garbage", Some((Spec { mutn: Mutn::Garbage, ..g.clone() }, sig_a.clone(), "rR".into())), label_a.clone()),
+                    ("ta-unknown-label", Some((g.clone(), sig_a.clone(), "rR".into())), "urn:c2pa:00000000-0000-4000-8000-000000000000".to_string()),
+                ];
+                for (tag, tokspec, label) in variants {
+                    if pki::now() >= ee_ta.not_after - 2 {
+                        run.notes.push(format!("{tag}: short-lived certificate expired before the second manifest was built; skipped"));
+                        continue;
+                    }
+                    let made = match &tokspec {
+                        None => None,
+                        Some((spec, covered, id)) => match make_token(&pki, spec, covered, id, None, rng) {
+                            Some(x) => Some(x),
+                            None => {
+                                run.notes.push(format!("{tag}: token generation failed"));
+                                continue;
+                            }
+                        },
+                    };
+                    let now0 = pki::now();
+                    let built = guarded({
+                        let (env, ee, asset_a, label, tok) = (env.clone(), ee_valid.clone(), asset_a.clone(), label.clone(), made.as_ref().map(|m| m.0.clone()));
+                        move || build_with_ts_assertion(&env, &ee, &asset_a, tok.as_deref().map(|t| (label.as_str(), t)))
+                    });
+                    match built {
+                        Ok(Ok(asset)) if pki::now() < ee_ta.not_after => {
+                            // an entry under an unknown label is not a token for this claim
+                            let facts: Vec<TokFacts> = if tag == "ta-unknown-label" { vec![] } else { made.iter().map(|m| m.1.clone()).collect() };
+                            let xt = if facts.is_empty() { "-".to_string() } else { facts.iter().map(|f| f.enc()).collect::<Vec<_>>().join(";") };
+                            ta_arts.push(TaArt { asset, xt, facts, ee: ee_ta.clone(), now0, tag: tag.to_string() });
+                        }
+                        Ok(Ok(_)) => run.notes.push(format!("{tag}: certificate expired while building; skipped")),
+                        other => run.notes.push(format!("{tag}: building the second manifest failed: {:?}", other.map(|r| r.map(|_| ()).err()))),
+                    }
+                }
+            } else {
+                run.notes.push("ta: no active label for the first manifest".into());
+            }
+        }
+        other => run.notes.push(format!("ta: signing the first manifest failed: {:?}", other.map(|r| r.map(|_| ()).err()))),
+    }
+    run.obligations.insert("time-stamp assertion cases present".into(), ta_arts.iter().any(|a| a.tag == "ta-good") && ta_arts.iter().any(|a| a.tag == "ta-wrongmsg"));
+
     // the same COSE-level artefacts for the hook level are built inside vc_case (they need the
     // certificate to be valid only for ground truth, not for signing), so do those first too
     for (tag, plan, _) in &short_plans {
@@ -1041,6 +1336,12 @@ pub fn run(run: &mut Run, rng: &mut Rng) {
         ("v1-good", HdrPlan::Toks(false, vec![(g.clone(), Cover::Right)])),
         ("v1-otherwrap", HdrPlan::Toks(false, vec![(g.clone(), Cover::OtherWrap)])),
         ("v1-raw-hdr", HdrPlan::Raw(false)),
+        // both kinds present: the first entry in header order is the one that counts
+        ("two:v2good+v1raw", HdrPlan::Two(Box::new(HdrPlan::Toks(true, vec![(g.clone(), Cover::Right)])), Box::new(HdrPlan::Raw(false)))),
+        ("two:v1raw+v2good", HdrPlan::Two(Box::new(HdrPlan::Raw(false)), Box::new(HdrPlan::Toks(true, vec![(g.clone(), Cover::Right)])))),
+        ("two:v1good+v2wrong", HdrPlan::Two(Box::new(HdrPlan::Toks(false, vec![(g.clone(), Cover::Right)])), Box::new(HdrPlan::Toks(true, vec![(g.clone(), Cover::Other(5))])))),
+        ("two:v2wrong+v1good", HdrPlan::Two(Box::new(HdrPlan::Toks(true, vec![(g.clone(), Cover::Other(6))])), Box::new(HdrPlan::Toks(false, vec![(g.clone(), Cover::Right)])))),
+        ("two:v1wrong+v2good", HdrPlan::Two(Box::new(HdrPlan::Toks(false, vec![(g.clone(), Cover::Other(7))])), Box::new(HdrPlan::Toks(true, vec![(g.clone(), Cover::Right)])))),
     ];
     for (tag, plan) in &plans {
         for (ename, ee) in [("valid", &ee_valid), ("expired", &ee_expired), ("future", &ee_future)] {
@@ -1057,7 +1358,11 @@ pub fn run(run: &mut Run, rng: &mut Rng) {
         vc_case(run, &env, ee, &plans[1].1, true, false, true, true, &format!("good+badsig/{ename}"), rng);
         vc_case(run, &env, ee, &plans[0].1, false, true, true, true, &format!("ext/{ename}"), rng);
         vc_case(run, &env, ee, &plans[3].1, false, true, true, true, &format!("ext+wrongmsg-hdr/{ename}"), rng);
+        vc_case(run, &env, ee, &plans[1].1, false, true, true, true, &format!("ext+good-hdr/{ename}"), rng);
     }
+    // a token made for another signature over the same claim
+    transplant_case(run, &env, &ee_valid, false, rng);
+    transplant_case(run, &env, &ee_valid, true, rng);
 
     // --- e2e with long-lived certificates
     let e2e_plans: Vec<(&str, HdrPlan, bool)> = vec![
@@ -1106,12 +1411,19 @@ pub fn run(run: &mut Run, rng: &mut Rng) {
     }
 
     // --- after expiry of the short-lived certificate
-    while pki::now() <= ee_short.not_after + 1 {
+    while pki::now() <= ee_short.not_after.max(ee_ta.not_after) + 1 {
         std::thread::sleep(std::time::Duration::from_millis(200));
     }
     for s in &short_signed {
         for (trust, tt) in [(true, true), (true, false)] {
             read_e2e(run, &env, s, trust, tt);
+        }
+    }
+    for a in &ta_arts {
+        read_ta(run, &env, a, true, true);
+        // the store pass checks assertion tokens with the trust part whatever this setting says
+        if thorough || a.tag == "ta-untrusted-tsa" || a.tag == "ta-good" {
+            read_ta(run, &env, a, true, false);
         }
     }
     for (tag, plan, _) in &short_plans {
